@@ -558,7 +558,7 @@ def run_kani_file(unit, spec, stage_dir, scratch, tier, prop):
     open(f, "w").write(text)
     wanted = [h["name"] for h in spec.get("harness", []) if tier_ok(h.get("tier", "quick"), tier)
               and prop in h.get("serves", spec.get("serves", []))]
-    jobs = max(1, min(len(wanted), int(os.environ.get("VERIF_KANI_JOBS", "12")), 6, _slot_budget(tier)))
+    jobs = max(1, min(len(wanted), int(os.environ.get("VERIF_KANI_JOBS", "12")), 6 if tier == "quick" else 3, _slot_budget(tier)))
     h_timeout = spec.get("timeout", 600) * (1 if tier == "quick" else 3)
     cmd = ["kani", f, "--harness-timeout", f"{h_timeout}s", "-Z", "unstable-options",
            "-j", str(jobs), "--output-format", "terse", "--output-into-files"]
